@@ -43,3 +43,16 @@ Example C11_tables_well_formed :
   flags_wf (cfg_flags Cfg37.cfg) = true /\ flags_wf (cfg_flags Cfg38.cfg) = true /\
   flags_wf (cfg_flags Cfg39.cfg) = true /\ flags_wf (cfg_flags Cfg310.cfg) = true.
 Proof. vm_compute. repeat split; reflexivity. Qed.
+
+(* Tie of the header case analysis to the current source, for ALL inputs.  Gen/SrcHeader.v is the translation,
+   regenerated on every run, of the statements of to_code_data between args_from_input and bytes_to_blocks: the NOFREE
+   consistency check, the removal of NOFREE / annotations / NESTED, the split on {NEWLOCALS, OPTIMIZED} (neither:
+   no arguments allowed, raise - not assert; both: docstring rule, at most one kind flag; one: raise), and the final
+   "unknown flags" test.  It equals the segment of the model's decode_code (model_header), and decode_code factors
+   through that segment - so "raises rather than loses" in the model is what the source's statements say now. *)
+From PCD Require Model.LineTable Model.Blocks Model.CodeData Gen.Src Gen.SrcHeader Proofs.SrcHeaderTie.
+Theorem C11_header_case_analysis_is_the_source : forall a constants nofree fl1,
+  PCD.Gen.SrcHeader.Header.header a (SrcHeaderTie.doc_of constants) nofree fl1
+  = SrcHeaderTie.model_header a constants nofree fl1.
+Proof. exact SrcHeaderTie.header_tie. Qed.
+Print Assumptions C11_header_case_analysis_is_the_source.
